@@ -189,6 +189,12 @@ def check_read(case, rec):
         path = os.path.join(tmp, "in.nc")
         dims = case["dims"]
         var = case["var"]
+        if case.get("earlier"):
+            # the same path held other values a moment ago and they were read: what counts is what the file holds now
+            make_template(path, dims, [dict(var, data=[1 if var["dtype"].startswith("i") else 0.5] * len(var["data"]), mask=None, fill=None)])
+            cmd_read(path, var["name"], None, None)
+            os.remove(path)
+            rec.label("read_after_file_replaced")
         make_template(path, dims, [var])
         shape = [d["size"] for d in dims]
         dt, mv = case.get("datatype"), case.get("missing")
@@ -322,7 +328,10 @@ def read_cases(draw):
             mv = draw(st.sampled_from([0, 1])) if draw(st.booleans()) else draw(st.sampled_from([d for d in data if 0 <= d <= 1] or [1]))
         else:
             mv = draw(st.sampled_from(data + [-9999, 77])) if data else -9999
-    return {"dims": dims, "var": {"name": "v", "dtype": dtype, "data": data, "mask": mask, "fill": fill}, "datatype": dt, "missing": mv}
+    case = {"dims": dims, "var": {"name": "v", "dtype": dtype, "data": data, "mask": mask, "fill": fill}, "datatype": dt, "missing": mv}
+    if draw(st.integers(0, 3)) == 0:
+        case["earlier"] = True
+    return case
 
 
 PARTS = {"write": check_write, "read": check_read}
